@@ -756,8 +756,9 @@ class SAMIParser(HTMLParser):
         # fix erroneous italics tags
         data = data.replace('<i/>', '<i>')
 
-        # fix awkward tags found in some SAMIs
-        data = data.replace(';>', '>')
+        # fix awkward tags found in some SAMIs (e.g. <P Class=ENCC;>); only
+        # inside a tag, so that the text "&amp;>" or "a;>b" is left alone
+        data = re.sub(r'(<[^<>]*);>', r'\1>', data)
         HTMLParser.feed(self, data)
 
         # close any tags that remain in the queue
